@@ -462,15 +462,52 @@ func (s schedulable) Schedule() scheduler.Schedule { return s.s }
 func (s schedulable) Offset() time.Duration        { return s.off }
 func (s schedulable) LastScheduled() time.Time     { return s.last }
 
+// budget is the hang bound. It is consumed only by "timely" waiting: the waiting goroutine
+// polls every 2 ms and each poll consumes at most 5 ms, so that a process that is itself
+// starved of CPU (the poller is then late as well) does not run out of budget while the
+// scheduler's goroutines had no chance to run. On an idle machine it is exactly hangBound.
+type budget struct {
+	used time.Duration
+	last time.Time
+}
+
+func newBudget() *budget { return &budget{last: time.Now()} }
+
+func (b *budget) reset() { b.used = 0; b.last = time.Now() }
+
+// spent accounts for the time since the previous call and reports whether the bound is used up.
+func (b *budget) spent() bool {
+	now := time.Now()
+	dt := now.Sub(b.last)
+	b.last = now
+	if dt > 5*time.Millisecond {
+		dt = 5 * time.Millisecond
+	}
+	b.used += dt
+	return b.used > hangBound
+}
+
 // bounded runs fn on its own goroutine and reports whether it returned within the hang bound.
 func bounded(fn func()) bool {
 	done := make(chan struct{})
 	go func() { defer close(done); fn() }()
-	select {
+	select { // fast path
 	case <-done:
 		return true
-	case <-time.After(hangBound):
-		return false
+	case <-time.After(time.Millisecond):
+	}
+	b := newBudget()
+	tk := time.NewTicker(2 * time.Millisecond)
+	defer tk.Stop()
+	for {
+		select {
+		case <-done:
+			return true
+		case <-tk.C:
+			if b.spent() {
+				return false
+			}
+		}
 	}
 }
 
@@ -835,8 +872,8 @@ func run(c Case, cc *kit.Case) {
 // waitSettled polls the recorded history until the model says nothing is outstanding. The
 // bound is a hang bound (>= 1000x the normal sub-20ms), not a tuning knob.
 func waitSettled(w *world, hc *hclock) (bool, string, string) {
-	start := time.Now()
-	nextFlush := start.Add(20 * time.Millisecond)
+	b := newBudget()
+	nextFlush := time.Now().Add(20 * time.Millisecond)
 	seen := -1
 	for {
 		w.mu.Lock()
@@ -844,22 +881,20 @@ func waitSettled(w *world, hc *hclock) (bool, string, string) {
 		failed := w.failSig != "" && !w.draining
 		progress := w.nRuns + w.nCps
 		w.mu.Unlock()
-		if ok || failed {
+		if ok || failed || hc.stuck {
 			return true, "", ""
 		}
-		now := time.Now()
 		if progress != seen { // the bound is on the time WITHOUT any recorded call, not on the length of a catch-up
-			seen, start = progress, now
+			seen = progress
+			b.reset()
 		}
-		if now.Sub(start) > hangBound {
+		if b.spent() {
 			return false, sig, why
 		}
-		if hc.stuck {
-			return true, "", ""
-		}
-		if now.After(nextFlush) {
+		if time.Now().After(nextFlush) {
 			hc.advance(0, nil) // timers whose deadline has passed fire (real-timer semantics)
 			nextFlush = time.Now().Add(50 * time.Millisecond)
+			b.last = time.Now() // the flush sleeps inside the mock (gosched): not waiting time
 		}
 		select {
 		case <-w.notify:
@@ -899,7 +934,7 @@ var assumptions = []string{
 	"clock = benbjohnson/clock Mock v1.1.0; the harness advances it with the scheduler's mutex held (atomic jump), flushes due timers after every operation and drops a tick when the timer channel is full (real time.Timer semantics); see clock_test.go",
 	"worker of an id = xxhash(id) mod workers (TreeScheduler doc comment): used only to decide which due occurrences can be waited for while an executor is blocked, and for labels",
 	"a panicking executor is inside the contract: TreeScheduler.work recovers it (ErrUnrecoverable 'executor panicked') and carries on",
-	"liveness (a due occurrence on a non-blocked worker is executed) uses a hang bound of 20 s without any recorded executor/checkpoint call; the normal latency is < 20 ms",
+	"liveness (a due occurrence on a non-blocked worker is executed) and promptness of Schedule/Release use a hang bound of 20 s without any recorded executor/checkpoint call (normal latency < 20 ms); the bound is consumed in polls of <= 5 ms so that a CPU-starved test process does not exhaust it",
 	"cost bound: at most 300 overdue occurrences at Schedule time (an older lastScheduled is moved to 150 periods before the clock); a clock advance is at most 120 periods of the fastest scheduled task",
 }
 
